@@ -106,3 +106,14 @@ impl Decimal {
 }
 
 pub proof fn lemma_div_mul(a: real, b: real) by(nonlinear_arith) requires b != 0real ensures (a / b) * b == a {}
+pub open spec fn real_cmp(a: real, b: real) -> core::cmp::Ordering {
+    if a < b { core::cmp::Ordering::Less } else if a == b { core::cmp::Ordering::Equal } else { core::cmp::Ordering::Greater }
+}
+pub open spec fn ord_rev(o: core::cmp::Ordering) -> core::cmp::Ordering {
+    match o { core::cmp::Ordering::Less => core::cmp::Ordering::Greater, core::cmp::Ordering::Equal => core::cmp::Ordering::Equal, core::cmp::Ordering::Greater => core::cmp::Ordering::Less }
+}
+impl Decimal {
+    // Ord::cmp (total order of the reals)
+    #[verifier::external_body]
+    pub fn cmp(&self, o: &Decimal) -> (r: core::cmp::Ordering) ensures r == real_cmp(self@, o@) { unimplemented!() }
+}
